@@ -186,6 +186,7 @@ struct SetSpec {
     std::map<long, long> m;
     bool map_values = false;    // compare values on reads
     bool relaxed_minmax = true; // extract_min/max: any present key accepted here; exact min/max window rule checked by the harness
+    bool update_replaces = false; // update() of an existing key swaps in the new item (iterable list, Feldman) instead of keeping the old one
     bool step( cdsmc::Op const& o )
     {
         auto it = m.find( o.arg );
@@ -207,9 +208,9 @@ struct SetSpec {
         case UPD_INS:
             if ( !o.res ) return false;
             if ( o.res2 ) { if ( it != m.end()) return false; m[o.arg] = o.arg2; return true; }
-            if ( it == m.end()) return false; it->second = o.arg2; return true;
+            if ( it == m.end()) return false; if ( update_replaces ) it->second = o.arg2; return true;
         case UPD_NOINS:
-            if ( o.res ) { if ( it == m.end()) return false; it->second = o.arg2; return true; }
+            if ( o.res ) { if ( it == m.end()) return false; if ( update_replaces ) it->second = o.arg2; return true; }
             return it == m.end();
         case EXT_MIN: case EXT_MAX:
             if ( o.res ) {
